@@ -164,6 +164,39 @@ def check_meta(ctx):
                 ctx.check(R, c, "copy passes t_ref", from_tbl and (tr is None or canon(tr) == "self.t_ref"), "copy() does not carry the table / epoch", key="copy:t_ref", nontrivial=False)
                 ctx.check(R, c, "copy copies the table", a0r is not None and canon(a0r) == canon(parse("self.tbl.copy()")), "copy() shares `%s` with the original" % (A.unparse(a0r) if a0r is not None else None), key="copy:copy")
     ctx.floor(R, n, 3)
+    # receiving side: a table handed to the constructor without explicit poly_trend / n_offsets / t_ref supplies them from its metadata
+    init = ctx.prog.func(SM, "JokerSamples.__init__", R)
+    iflow = A.Flow(init, track_self=True)
+    sinks = {}
+    for c in A.calls_in(init):
+        cn = A.call_name(c)
+        if cn == "validate_poly_trend" and c.args:
+            sinks["poly_trend"] = (c.args[0], A.enclosing_stmt(c))
+        elif cn == "validate_n_offsets" and c.args:
+            sinks["n_offsets"] = (c.args[0], A.enclosing_stmt(c))
+    for st_ in A.walk_local(init):
+        if isinstance(st_, ast.Assign) and (dotted(st_.targets[0]) == "self.t_ref" or canon(st_.targets[0]) == canon(parse("self.tbl.meta['t_ref']"))):
+            sinks["t_ref"] = (st_.value, st_)
+    for key in ("poly_trend", "n_offsets", "t_ref"):
+        if key not in sinks:
+            ctx.violate(R, init, "constructor uses the table's %s" % key, "no place where %s is validated / stored" % key, key="init:" + key)
+            continue
+        e, at = sinks[key]
+        r = A.assume_none(iflow.resolve(e, at=at), [key])
+        ok = True
+        seen = []
+        table_leaves = 0
+        for terms, leaf in A.ifexp_terms(r):
+            ts = A.term_strings(terms)
+            if any(t.startswith("+isinstance(samples") for t in ts):
+                table_leaves += 1
+                # Time(...) wrappers around the popped value are fine
+                core = [x for x in ast.walk(leaf) if isinstance(x, ast.Call) and A.last_attr(x) == "pop" and x.args and A.str_const(x.args[0]) == key]
+                seen.append(A.unparse(leaf)[:60])
+                ok = ok and bool(core)
+        ctx.check(R, at, "a table passed without explicit %s supplies it from its metadata" % key, ok and table_leaves > 0,
+                  "with %s left at None and a table as input the constructor uses `%s`, not the table's own %s: indexing, copy() and median_period() reset it" % (key, "; ".join(seen) or "?", key),
+                  key="init:" + key)
     gi = ctx.prog.func(SM, "JokerSamples.__getitem__", R)
     rets = [s for s in A.walk_local(gi) if isinstance(s, ast.Return)]
     colret = [s for s in rets if canon(s.value) == canon(parse("self.tbl[key]"))]
